@@ -87,7 +87,7 @@ def run(rep, tier, seed):
     rep.rule = (
         "%d expressions forced through constructs that push temporary contexts (context literals, filters, for/some/every, invocations, unary tests) plus a quarter as many filters over lists whose context elements carry entries named `item`, like variables in use or like names of the caller's scope, each parsed and evaluated 3x in scopes of 1-4 layers with the "
         "scope rendered before/after; %d histories of 200-2000 steps over 8 prepared evaluators x 4 long-lived scopes; successful parses through all six entry points; %d generated DMN models (boxed contexts, "
-        "invocations, BKMs, services, tables) with every (invocable, input) pair called 3x interleaved in random order; decision tables recognised from drawings evaluated twice over a caller's scope that holds more than their inputs. Distinct = (text | history | model call); non-trivial = evaluation produced a non-null value." % (n_expr, n_hist, n_models)
+        "invocations, BKMs, services, tables) with every (invocable, input) pair called 3x interleaved in random order and once more on an evaluator built for that call alone; decision tables recognised from drawings evaluated twice over a caller's scope that holds more than their inputs. Distinct = (text | history | model call); non-trivial = evaluation produced a non-null value." % (n_expr, n_hist, n_models)
     )
     rep.assumptions = ["the scope's textual rendering (Display of the stack of contexts) is a faithful witness of its contents", "values depending on the current date (times of day in named zones) are not generated"]
     rng = rng_for(seed, "c13")
@@ -178,7 +178,7 @@ def run(rep, tier, seed):
                 pairs.append((inv, [[n, rfeel.to_json(v)] for n, v in inp.items()]))
         order = [p for p in range(len(pairs)) for _ in range(3)]
         rng.shuffle(order)
-        mcases.append({"op": "model", "xml": gdrg.to_xml(m), "calls": [[pairs[p][0], pairs[p][1]] for p in order]})
+        mcases.append({"op": "model", "xml": gdrg.to_xml(m), "calls": [[pairs[p][0], pairs[p][1]] for p in order], "fresh": True})
         mmeta.append(order)
     mresults, _ = runner.run_cases("dbg", mcases, rep.workdir, label="models")
     mrep = 0
@@ -196,6 +196,8 @@ def run(rep, tier, seed):
             if "panic" in r:
                 rep.violation(panic_signature(r["panic"]) + ":model", "panic evaluating %s" % call[0], {"variant": "dbg", "case": case})
                 continue
+            if "fresh_diff" in r:
+                rep.violation("model-result-depends-on-earlier-evaluations", "%s gave %s after other evaluations of the same evaluator and %s on an evaluator built for this call alone" % (call[0], json.dumps(r["fresh_diff"]["after_other_calls"])[:150], json.dumps(r["fresh_diff"]["alone"])[:150]), {"variant": "dbg", "case": case})
             if "input_changed" in r:
                 rep.violation("model-input-context-changed", "evaluate_invocable(%s) changed the supplied input context: %s" % (call[0], json.dumps(r["input_changed"])[:300]), {"variant": "dbg", "case": case})
             v = json.dumps(r.get("v"), sort_keys=True)
